@@ -10,6 +10,7 @@ import Ops.Symbols
 import Ops.E2EProps
 import Ops.IO
 import Ops.SeqEnc
+import Ops.Options
 import Ops.EncBuf
 import Ops.C0506
 import Ops.KdTree
@@ -31,6 +32,7 @@ def allOps : List (String × (List String → String)) := List.flatten [
   Ops.symbolOps,
   Ops.ioOps,
   Ops.seqEncOps,
+  Ops.optionsOps,
   Ops.encBufOps,
   Ops.c0506Ops,
   Ops.kdTreeOps,
